@@ -55,12 +55,54 @@ def payloads(rng, tier):
                 yield s, {"k": k, "v": v}
     for k in range(1, {"quick": 5, "thorough": 6, "search": 3}[tier] + 1):
         yield "complete", {"k": k}
+    # complete accessors of higher order: checked against the vectorised shift formula (no model call: 4^k rows)
+    for k in range(6, {"quick": 10, "thorough": 11, "search": 8}[tier] + 1):
+        yield "complete_big", {"k": k}
+    # the functions must still be right after graphs have been generated in the same process (shared / cached state)
+    for _ in range({"quick": 12, "thorough": 120, "search": 6}[tier]):
+        k = rng.randint(1, 4)
+        yield "after_generation", {"k": k, "mask": [1 if rng.random() < 0.6 else 0 for _ in range(4 ** k)],
+                                   "t": rng.choice([1, 2]), "v": rng.randrange(4 ** k)}
 
 
 def build(stream, p):
     k = p["k"]
     v = p.get("v", 0)
     km = kmer(v, k)
+    if stream == "complete_big":
+        def run_big():
+            a = dsw.get_complete_accessor(observed_length=k)
+            n = 4 ** k
+            rows = np.arange(n, dtype=np.int64).reshape(-1, 1)
+            want = (4 * rows + np.arange(4, dtype=np.int64).reshape(1, -1)) % n
+            return a.shape == (n, 4) and bool((np.asarray(a, dtype=np.int64) == want).all())
+        return Case(stream, p, None, lambda: guard(run_big, lambda r: [[int(r)]], seconds=300),
+                    lambda a, r: None if r is True else "complete accessor of order %d is not the shift-successor table: %r" % (k, r),
+                    domain=True, nontrivial=True, tags=["k=%d" % k])
+    if stream == "after_generation":
+        def run_after():
+            mask = np.array(p["mask"], dtype=int)
+            try:
+                dsw.connect_valid_graph(observed_length=k, vertices=mask)
+                dsw.connect_coding_graph(observed_length=k, vertices=mask, threshold=p["t"])
+            except ValueError:
+                pass
+            lat = dsw.obtain_latters(current=v, observed_length=k)
+            fo = dsw.obtain_formers(current=v, observed_length=k)
+            comp = dsw.get_complete_accessor(observed_length=k)
+            return [int(x) for x in lat], [int(x) for x in fo], [int(x) for x in comp.reshape(-1)]
+        want_l = [index(km[1:] + c) for c in NUC]
+        want_f = [index(c + km[:-1]) for c in NUC]
+        want_c = [(4 * u + j) % 4 ** k for u in range(4 ** k) for j in range(4)]
+
+        def oracle_after(ans, raw):
+            if isinstance(raw, BaseException):
+                return "raised %r" % (raw,)
+            if raw[0] != want_l or raw[1] != want_f or raw[2] != want_c:
+                return "after generating a graph of order %d: successors %r / predecessors %r / complete accessor differ from shift-append" % (k, raw[0], raw[1])
+            return None
+        return Case(stream, p, None, lambda: guard(run_after, lambda r: [r[0], r[1]]), oracle_after, domain=True,
+                    nontrivial=k >= 2, tags=["k=%d" % k])
     if stream == "latters":
         call = enc_call(13, v, k)
         impl = lambda: guard(lambda: dsw.obtain_latters(current=v, observed_length=k), lambda r: [[int(x) for x in r]])
